@@ -89,7 +89,7 @@ EOf(fo) ==
         x == Trans(cur, a, last'.luck)
         sb == steps
         sa == sb + 1 IN
-    [ev |-> "step", a |-> a, luck |-> last'.luck, ndraw |-> x.ndraw,
+    [ev |-> "step", a |-> a, luck |-> last'.luck, ndraw |-> x.ndraw, blind |-> FALSE,
      pre |-> cur, post |-> cur',
      res |-> [success |-> x.success, value |-> x.value, disc |-> x.disc,
               newly |-> x.newly, flags |-> x.flags],
